@@ -169,6 +169,9 @@ func Read(r io.Reader, opts ...wkbcommon.WKBOption) (geom.T, error) {
 		if err != nil {
 			return nil, err
 		}
+		if limit := wkbcommon.MaxGeometryElements[1]; limit >= 0 && int(n) > limit {
+			return nil, wkbcommon.ErrGeometryTooLarge{Level: 1, N: int(n), Limit: limit}
+		}
 		gc := geom.NewGeometryCollection()
 		for range n {
 			g, err := Read(r, opts...)
